@@ -888,7 +888,7 @@ wavlike_read_cart_chunk (SF_PRIVATE *psf, uint32_t chunksize)
 	bytes += psf_binheader_readf (psf, "b", c->producer_app_id, sizeof (c->producer_app_id)) ;
 	bytes += psf_binheader_readf (psf, "b", c->producer_app_version, sizeof (c->producer_app_version)) ;
 	bytes += psf_binheader_readf (psf, "b", c->user_def, sizeof (c->user_def)) ;
-	bytes += psf_binheader_readf (psf, "e4", &c->level_reference, sizeof (c->level_reference)) ;
+	bytes += psf_binheader_readf (psf, "4", &c->level_reference) ;
 
 	for (k = 0 ; k < ARRAY_LEN (c->post_timers) ; k++)
 		bytes += psf_binheader_readf (psf, "b4", &c->post_timers [k].usage, make_size_t (4), &c->post_timers [k].value) ;
@@ -937,7 +937,7 @@ wavlike_write_cart_chunk (SF_PRIVATE *psf)
 	psf_binheader_writef (psf, "b", BHWv (c->producer_app_id), BHWz (sizeof (c->producer_app_id))) ;
 	psf_binheader_writef (psf, "b", BHWv (c->producer_app_version), BHWz (sizeof (c->producer_app_version))) ;
 	psf_binheader_writef (psf, "b", BHWv (c->user_def), BHWz (sizeof (c->user_def))) ;
-	psf_binheader_writef (psf, "e4", BHW4 (c->level_reference)) ;
+	psf_binheader_writef (psf, "4", BHW4 (c->level_reference)) ;
 
 	for (k = 0 ; k < ARRAY_LEN (c->post_timers) ; k++)
 		psf_binheader_writef (psf, "b4", BHWv (c->post_timers [k].usage), BHWz (4), BHW4 (c->post_timers [k].value)) ;
